@@ -40,7 +40,7 @@ theorem blocksLen_append (a b : List Blk) : blocksLen (a ++ b) = blocksLen a + b
   | nil => simp [blocksLen]
   | cons x xs ih => simp [blocksLen, ih]; omega
 
-theorem blocksLen_reverse (bs : List Blk) : blocksLen bs.reverse = blocksLen bs := by
+theorem blocksLen_reverse_pm (bs : List Blk) : blocksLen bs.reverse = blocksLen bs := by
   induction bs with
   | nil => rfl
   | cons b bs ih => simp [blocksLen_append, blocksLen, ih]; omega
@@ -78,7 +78,7 @@ theorem r2pWalk_minus (bs : List Blk) (r : Nat) : r2pWalk false bs r = (basesMin
 
 theorem bases_length (l : Loc) : (bases l).length = l.len := by
   unfold bases Loc.len
-  cases l.strand <;> simp [basesPlus_length, basesMinus_length, blocksLen_reverse]
+  cases l.strand <;> simp [basesPlus_length, basesMinus_length, blocksLen_reverse_pm]
 
 /-- `compoundR2P` once the strand is known to be directional. -/
 theorem compoundR2P_walk (bs : List Blk) (st : Strand) (hd : st ≠ .unstranded) (r : Int) :
